@@ -187,6 +187,7 @@ def c_helpers(chk):
         Ob(c, 'verify_SKE_sig', ICall('irsavrfy', ftype=r'^i32 \(i8\*, i64, i8\*, i64, %struct\.br_rsa_public_key\*, i8\*\)'), ('pin', 0), RET_NONZERO(), ('pin', 1),
            'RSA verification failure of the ServerKeyExchange signature', rule=R),
         Ob(c, 'verify_SKE_sig', Call('memcmp'), ('pin', 1), RET_NONZERO(), ('pin', 0), 'hash mismatch in the RSA ServerKeyExchange signature', rule=R),
+        Ob(c, 'verify_SKE_sig', Call('memcmp'), ('pin', -1), RET_NONZERO(), None, 'hash mismatch in the RSA ServerKeyExchange signature', rule=R),
         Ob(c, 'verify_SKE_sig', ICall('iecdsa', ftype=r'^i32 \(%struct\.br_ec_impl\*, i8\*, i64, %struct\.br_ec_public_key\*, i8\*, i64\)'), ('pin', 0), RET_NONZERO(), ('pin', 1),
            'ECDSA verification failure of the ServerKeyExchange signature', rule=R),
         Ob(c, 'verify_SKE_sig', Call('br_multihash_out'), ('pin', 0), RET_NONZERO(), None, 'unsupported hash function', rule=R, min_sites=3, together=True),
@@ -198,6 +199,7 @@ def c_helpers(chk):
         Ob(s, 'verify_CV_sig', ICall('irsavrfy', ftype=r'^i32 \(i8\*, i64, i8\*, i64, %struct\.br_rsa_public_key\*, i8\*\)'), ('pin', 0), RET_NONZERO(), ('pin', 1),
            'RSA verification failure of CertificateVerify', rule=R),
         Ob(s, 'verify_CV_sig', Call('memcmp'), ('pin', 1), RET_NONZERO(), ('pin', 0), 'hash mismatch in CertificateVerify', rule=R),
+        Ob(s, 'verify_CV_sig', Call('memcmp'), ('pin', -1), RET_NONZERO(), None, 'hash mismatch in CertificateVerify', rule=R),
         Ob(s, 'verify_CV_sig', ICall('iecdsa', ftype=r'^i32 \(%struct\.br_ec_impl\*, i8\*, i64, %struct\.br_ec_public_key\*, i8\*, i64\)'), ('pin', 0), RET_NONZERO(), ('pin', 1),
            'ECDSA verification failure of CertificateVerify', rule=R),
     ]
